@@ -193,6 +193,7 @@ Step(S, a) ==
       [] a.a = "Ack"      -> DoAck(S, a, t)
       [] a.a = "Timeout"  -> DoTimeout(S, a, t)
       [] a.a = "Block"    -> Ok([S EXCEPT !.now = t])
+      [] a.a = "XImport"  -> Ok([S EXCEPT !.now = t])     \* genesis export + import on chain a.c: identity
 
 (***************************************************************************)
 (* Property C43 as state predicates                                        *)
